@@ -26,6 +26,7 @@ MANIFEST = dict(
     note=("A1, A5. Shape bounds: Point in ConvexPolygon is proved for n = 3..8 vertices and Point in ConvexPolyhedron for F = 4..8, 10, 12 opaque faces (centre, outward unit normal), against the half-plane / half-space denotation "
           "with symbolic eps; Segment in ConvexPolygon / ConvexPolyhedron by convexity of that denotation; HalfLine in HalfLine and the forward direction of ConvexPolygon in Plane. ConvexPolygon in ConvexPolyhedron, the converse of ConvexPolygon in Plane "
           "and larger shapes are covered by the labelled bounded stand-in (membership catalogue with exact oracle), not by proof."),
+    technique='contract-based deductive verification of the membership predicates with symbolic eps (tolerance contracts; z3 / cvc5, ghost scalars) + labelled bounded membership catalogue against exact containment',
     design_ref="DESIGN.md section 9 (C05), section 4",
 )
 EXPLANATION = "tolerance predicates proved with symbolic eps (SCALAR world, ghost scalars for |u|^2, u.v); composite membership over symbolic coordinates"
